@@ -54,8 +54,8 @@ claimed = {
    note="Protobuf reflection / proto.Size / Any are replaced by the size model in the engine (natively the real code runs on a real UnaryRequest with the same sizes); padding bytes are length-abstracted; sharpness of the limit inside connect-go/grpc-go (second sentence) is outside the claim.",
    ref="7 (C19)"),
  "C03": dict(
-   text="Bounded model checking of the real comparison code in results.go: comma-joining laws of canonicalizeHeaderVals (strings <=3 bytes), checkHeaders against a set-theoretic reference (<=2 headers per side, mixed-case names, joined/split values), checkError against the documented table (<=2 details per side, every position), the echoed-timeout window for all int64 values, and assert() with the header/trailer merging leniency and HTTP status rule - each as an iff between 'no discrepancy reported' and the reference predicate.",
-   note="String alphabets are small constant sets; anypb/protocmp are contract stubs (equal iff type URL and bytes equal), natively replaced by real messages; discrepancy texts are not checked; payload/request-echo comparison (checkPayloads bytes, request round trip) not covered yet.",
+   text="Bounded model checking of the real comparison code in results.go: comma-joining laws of canonicalizeHeaderVals (strings <=3 bytes), checkHeaders against a set-theoretic reference (<=2 headers per side, mixed-case names, joined/split values), checkError against the documented table (<=2 details per side, every position), the echoed-timeout window for all int64 values, checkPayloads (number, order, bytes, echoed requests per payload), and assert() with the header/trailer merging leniency and HTTP status rule - each as an iff between 'no discrepancy reported' and the reference predicate.",
+   note="String alphabets are small constant sets; anypb/protocmp are contract stubs (equal iff type URL and bytes equal), natively replaced by real messages; discrepancy texts are not checked; payload bytes and the request echo are compared on 1-byte payloads and two distinct request messages.",
    ref="7 (C03)"),
  "C04": dict(
    text="Bounded model checking of testResults.report (with processSidebandInfoLocked): for <=2 named cases with every combination of outcome {pass, failure, could-not-run}, setup-error, known-failing, known-flaky, peer feedback and 0..2 selected cases without any outcome, the return value, the FAILED lines and the printed totals equal the reference classification; plus (C10 harness H10a) a finished client process is reported as not running.",
